@@ -199,6 +199,8 @@ fn alpha(cfg: &Cfg) -> Vec<Op> {
     v.push(Op::resize(17, 2));
     v.push(Op::resize(2, 9));
     v.push(t("bcd").kind(Kind::FeedSplit));
+    v.push(c(lfs(12)));
+    v.push(c(lfs(25)));
     v
 }
 
@@ -331,8 +333,14 @@ macro_rules! parts {
             name: "structural+extreme",
             sys: $sys,
             cfgs: match tier {
-                Tier::Quick => cfgs(&[(1, 1), (2, 1), (1, 2), (2, 2), (3, 2), (4, 3)], &[None, Some(0), Some(1)]),
-                Tier::Thorough => cfgs(S4, &[None, Some(0), Some(1), Some(10)]),
+                Tier::Quick => {
+                    let mut v = cfgs(&[(1, 1), (2, 1), (1, 2), (2, 2), (3, 2), (4, 3)], &[None, Some(0), Some(1)]);
+                    // limits where the soft and the hard limit differ
+                    v.push(Cfg::new(2, 2, Some(10)));
+                    v.push(Cfg::new(2, 2, Some(20)));
+                    v
+                }
+                Tier::Thorough => cfgs(S4, &[None, Some(0), Some(1), Some(10), Some(20)]),
             },
             alphabet: &alpha,
             depth: tier.pick(3, 4),
